@@ -1,2 +1,1199 @@
+//! C04 — hierarchy membership equals parent-reachability after any store history.
+//!
+//! Three exhaustive parts, all over a universe of n uids of one entity type (quick n = 3,
+//! thorough n = 4) plus one never-stored uid used only in queries:
+//!  1. explicit-state BFS (stateright) over `cedar_policy::Entities`: every transition calls the
+//!     real API once (`from_entities` / `add_entities` / `upsert_entities` / `remove_entities`,
+//!     batches of size 1 and ordered size 2, duplicates inside a batch, self-parents, dangling
+//!     parents) in lock-step with the reference model (uid -> direct parents, refsem::Store);
+//!  2. `from_entities` on EVERY parent graph over the universe (every stored subset, every parent
+//!     assignment incl. self-parents, hence cycles of every length <= n) in every insertion order;
+//!  3. core-level `TCComputation::EnforceAlreadyComputed` on hand-built stores of 3 entities with
+//!     every combination of parent edges and claimed indirect edges.
+//!
+//! The state of the BFS is the canonical form read back FROM THE IMPLEMENTATION (sorted uid ->
+//! (direct parents, indirect ancestors)) together with the model; the real object built by the
+//! history rides along in the state (it is not hashable) and is the object every query is asked of.
+use crate::bind::*;
 use crate::harness::*;
-pub fn run(_tier: Tier, _replay: Option<&str>) -> i32 { 2 }
+use cedar_policy_core::ast;
+use rayon::prelude::*;
+use refsem::{Ent, Store, Uid};
+use serde_json::{json, Value as J};
+use stateright::{Checker, Model, Property};
+use std::collections::{BTreeMap, BTreeSet, HashSet};
+use std::hash::{Hash, Hasher};
+use std::panic::{catch_unwind, AssertUnwindSafe};
+use std::str::FromStr;
+use std::sync::atomic::{AtomicU64, AtomicUsize, Ordering};
+use std::sync::{Arc, Mutex, RwLock};
+
+const TY: &str = "N";
+const NAMES: [&str; 4] = ["A", "B", "C", "D"];
+/// never stored; appears only as a query argument
+const GHOST: &str = "Z";
+
+fn uid(i: usize) -> Uid {
+    Uid::new(TY, NAMES[i])
+}
+
+fn idx_of(u: &Uid) -> Option<usize> {
+    if u.ty != TY {
+        return None;
+    }
+    NAMES.iter().position(|n| *n == u.id)
+}
+
+fn show_uid(u: &Uid) -> String {
+    u.id.clone()
+}
+
+fn show_set(s: &BTreeSet<Uid>) -> String {
+    format!("{{{}}}", s.iter().map(show_uid).collect::<Vec<_>>().join(","))
+}
+
+// ---------------------------------------------------------------------------------------------
+// operations (the generator's own terms)
+// ---------------------------------------------------------------------------------------------
+
+/// one entity as handed to the API: uid index and bitmask of direct parents (bit u = self-parent)
+#[derive(Clone, Copy, PartialEq, Eq, Hash, Debug, PartialOrd, Ord)]
+pub struct Spec {
+    u: u8,
+    parents: u8,
+}
+
+#[derive(Clone, PartialEq, Eq, Hash, Debug)]
+pub enum Op {
+    From(Vec<Spec>),
+    Add(Vec<Spec>),
+    Upsert(Vec<Spec>),
+    Remove(Vec<u8>),
+}
+
+impl Op {
+    fn kind(&self) -> &'static str {
+        match self {
+            Op::From(_) => "from_entities",
+            Op::Add(_) => "add_entities",
+            Op::Upsert(_) => "upsert_entities",
+            Op::Remove(_) => "remove_entities",
+        }
+    }
+    fn len(&self) -> usize {
+        match self {
+            Op::From(b) | Op::Add(b) | Op::Upsert(b) => b.len(),
+            Op::Remove(b) => b.len(),
+        }
+    }
+    /// stable call-site name for fingerprints: API entry point + batch-size class
+    fn site(&self) -> String {
+        let l = match self.len() {
+            0 => "0",
+            1 => "1",
+            2 => "2",
+            _ => "n",
+        };
+        format!("{}/{}", self.kind(), l)
+    }
+    fn to_json(&self) -> J {
+        let specs = |b: &Vec<Spec>| -> J { J::Array(b.iter().map(|s| json!({"uid": NAMES[s.u as usize], "parents": mask_names(s.parents)})).collect()) };
+        match self {
+            Op::From(b) => json!({"op": "from_entities", "batch": specs(b)}),
+            Op::Add(b) => json!({"op": "add_entities", "batch": specs(b)}),
+            Op::Upsert(b) => json!({"op": "upsert_entities", "batch": specs(b)}),
+            Op::Remove(b) => json!({"op": "remove_entities", "uids": b.iter().map(|u| NAMES[*u as usize]).collect::<Vec<_>>()}),
+        }
+    }
+    fn from_json(j: &J) -> Option<Op> {
+        let name_idx = |s: &J| -> Option<u8> { NAMES.iter().position(|n| Some(*n) == s.as_str()).map(|i| i as u8) };
+        let specs = |j: &J| -> Option<Vec<Spec>> {
+            j.as_array()?
+                .iter()
+                .map(|e| {
+                    let u = name_idx(&e["uid"])?;
+                    let mut m = 0u8;
+                    for p in e["parents"].as_array()? {
+                        m |= 1 << name_idx(p)?;
+                    }
+                    Some(Spec { u, parents: m })
+                })
+                .collect()
+        };
+        match j["op"].as_str()? {
+            "from_entities" => Some(Op::From(specs(&j["batch"])?)),
+            "add_entities" => Some(Op::Add(specs(&j["batch"])?)),
+            "upsert_entities" => Some(Op::Upsert(specs(&j["batch"])?)),
+            "remove_entities" => Some(Op::Remove(j["uids"].as_array()?.iter().map(name_idx).collect::<Option<Vec<u8>>>()?)),
+            _ => None,
+        }
+    }
+}
+
+fn mask_names(m: u8) -> Vec<&'static str> {
+    (0..4).filter(|i| m & (1 << i) != 0).map(|i| NAMES[i]).collect()
+}
+
+fn mask_set(m: u8) -> BTreeSet<Uid> {
+    (0..4).filter(|i| m & (1 << i) != 0).map(uid).collect()
+}
+
+/// every entity over n uids: uid x every subset of the universe (self included) as parents
+fn all_specs(n: usize) -> Vec<Spec> {
+    let mut v = Vec::new();
+    for u in 0..n {
+        for m in 0..(1u16 << n) {
+            v.push(Spec { u: u as u8, parents: m as u8 });
+        }
+    }
+    v
+}
+
+/// the operation alphabet of the BFS: batches of size 1 and ORDERED size 2 (so: same uid twice
+/// with identical / different parents, both orders of two different uids)
+fn all_ops(n: usize) -> Vec<Op> {
+    let specs = all_specs(n);
+    let mut batches: Vec<Vec<Spec>> = specs.iter().map(|s| vec![*s]).collect();
+    for a in &specs {
+        for b in &specs {
+            batches.push(vec![*a, *b]);
+        }
+    }
+    let mut ops = Vec::new();
+    for b in &batches {
+        ops.push(Op::From(b.clone()));
+    }
+    for b in &batches {
+        ops.push(Op::Add(b.clone()));
+    }
+    for b in &batches {
+        ops.push(Op::Upsert(b.clone()));
+    }
+    for a in 0..n {
+        ops.push(Op::Remove(vec![a as u8]));
+    }
+    for a in 0..n {
+        for b in 0..n {
+            ops.push(Op::Remove(vec![a as u8, b as u8]));
+        }
+    }
+    ops
+}
+
+// ---------------------------------------------------------------------------------------------
+// reference model: uid -> set of direct parents (refsem::Store; reach / ancestors / has_cycle
+// are BFS over the direct-parent edges, parents without a record are leaves)
+// ---------------------------------------------------------------------------------------------
+
+pub struct Pred {
+    /// the store the model expects after an accepted op
+    next: Store,
+    /// the batch re-adds (add / from) a uid that is already present at that point: the library's
+    /// answer (Err, or Ok leaving that record unchanged) is not predicted
+    unpredicted: bool,
+}
+
+fn ent_of(parents: u8) -> Ent {
+    Ent { attrs: BTreeMap::new(), tags: BTreeMap::new(), parents: mask_set(parents) }
+}
+
+pub fn model_step(cur: &Store, op: &Op) -> Pred {
+    let mut next = cur.clone();
+    let mut unpredicted = false;
+    match op {
+        Op::From(b) | Op::Add(b) => {
+            if matches!(op, Op::From(_)) {
+                next = Store::default();
+            }
+            for s in b {
+                let u = uid(s.u as usize);
+                if next.ents.contains_key(&u) {
+                    unpredicted = true; // if accepted, the stored record stays as it is
+                } else {
+                    next.ents.insert(u, ent_of(s.parents));
+                }
+            }
+        }
+        Op::Upsert(b) => {
+            for s in b {
+                next.ents.insert(uid(s.u as usize), ent_of(s.parents)); // replaces; incoming edges stay
+            }
+        }
+        Op::Remove(b) => {
+            for r in b {
+                let u = uid(*r as usize);
+                if next.ents.remove(&u).is_some() {
+                    // "after removing all edges to/from the removed entities"
+                    for e in next.ents.values_mut() {
+                        e.parents.remove(&u);
+                    }
+                }
+            }
+        }
+    }
+    Pred { next, unpredicted }
+}
+
+fn model_specs(m: &Store) -> Vec<Spec> {
+    m.ents
+        .iter()
+        .map(|(u, e)| {
+            let mut mask = 0u8;
+            for p in &e.parents {
+                mask |= 1 << idx_of(p).expect("model uid in universe");
+            }
+            Spec { u: idx_of(u).expect("model uid in universe") as u8, parents: mask }
+        })
+        .collect()
+}
+
+fn model_json(m: &Store) -> J {
+    J::Object(m.ents.iter().map(|(u, e)| (u.id.clone(), json!(e.parents.iter().map(show_uid).collect::<Vec<_>>()))).collect())
+}
+
+// ---------------------------------------------------------------------------------------------
+// the implementation side
+// ---------------------------------------------------------------------------------------------
+
+pub struct World {
+    n: usize,
+    /// universe + ghost (query arguments)
+    q_uids: Vec<Uid>,
+    q_cuids: Vec<cedar_policy::EntityUid>,
+    /// ents[u][mask]
+    ents: Vec<Vec<cedar_policy::Entity>>,
+    /// `permit(principal in Y, action, resource);` for every query uid Y
+    psets: Vec<cedar_policy::PolicySet>,
+    /// request with principal = x for every query uid x
+    reqs: Vec<cedar_policy::Request>,
+    auth: cedar_policy::Authorizer,
+}
+
+impl World {
+    pub fn new(n: usize) -> World {
+        let mut q_uids: Vec<Uid> = (0..n).map(uid).collect();
+        q_uids.push(Uid::new(TY, GHOST));
+        let q_cuids: Vec<cedar_policy::EntityUid> = q_uids.iter().map(c_uid).collect();
+        let mut ents = Vec::new();
+        for u in 0..n {
+            let mut row = Vec::new();
+            for m in 0..(1u16 << n) {
+                let parents: HashSet<cedar_policy::EntityUid> = (0..n).filter(|i| m & (1 << i) != 0).map(|i| q_cuids[i].clone()).collect();
+                row.push(cedar_policy::Entity::new_no_attrs(q_cuids[u].clone(), parents));
+            }
+            ents.push(row);
+        }
+        let psets = q_uids
+            .iter()
+            .map(|y| cedar_policy::PolicySet::from_str(&format!("permit(principal in {TY}::\"{}\", action, resource);", y.id)).expect("policy text"))
+            .collect();
+        let act = c_uid(&Uid::new("Action", "act"));
+        let res = c_uid(&Uid::new(TY, "R"));
+        let reqs = q_cuids.iter().map(|x| cedar_policy::Request::new(x.clone(), act.clone(), res.clone(), cedar_policy::Context::empty(), None).expect("request")).collect();
+        World { n, q_uids, q_cuids, ents, psets, reqs, auth: cedar_policy::Authorizer::new() }
+    }
+
+    fn entity(&self, s: &Spec) -> cedar_policy::Entity {
+        self.ents[s.u as usize][s.parents as usize].clone()
+    }
+}
+
+type ERes = Result<cedar_policy::Entities, cedar_policy::entities_errors::EntitiesError>;
+
+/// exactly one call of the real API
+fn impl_step(real: cedar_policy::Entities, op: &Op, w: &World) -> ERes {
+    match op {
+        Op::From(b) => cedar_policy::Entities::from_entities(b.iter().map(|s| w.entity(s)), None),
+        Op::Add(b) => real.add_entities(b.iter().map(|s| w.entity(s)), None),
+        Op::Upsert(b) => real.upsert_entities(b.iter().map(|s| w.entity(s)), None),
+        Op::Remove(b) => real.remove_entities(b.iter().map(|u| w.q_cuids[*u as usize].clone())),
+    }
+}
+
+fn err_class(e: &cedar_policy::entities_errors::EntitiesError) -> &'static str {
+    use cedar_policy::entities_errors::EntitiesError as E;
+    match e {
+        E::Duplicate(_) => "duplicate",
+        E::TransitiveClosureError(_) => "tc",
+        _ => "other",
+    }
+}
+
+/// canonical form read back from the implementation: uid -> (direct parents, indirect ancestors)
+pub type Canon = BTreeMap<Uid, (BTreeSet<Uid>, BTreeSet<Uid>)>;
+
+fn readback(real: &cedar_policy::Entities) -> Result<Canon, String> {
+    let mut c = Canon::new();
+    let mut count = 0usize;
+    for e in real.iter() {
+        count += 1;
+        let e: &ast::Entity = e.as_ref();
+        let ps: Vec<Uid> = e.parents().map(abs_uid).collect();
+        let is: Vec<Uid> = e.indirect_ancestors().map(abs_uid).collect();
+        let pset: BTreeSet<Uid> = ps.iter().cloned().collect();
+        let iset: BTreeSet<Uid> = is.iter().cloned().collect();
+        if pset.len() != ps.len() || iset.len() != is.len() {
+            return Err(format!("entity {} lists a parent/ancestor twice", e.uid()));
+        }
+        if c.insert(abs_uid(e.uid()), (pset, iset)).is_some() {
+            return Err(format!("store iterates uid {} twice", e.uid()));
+        }
+    }
+    if count != c.len() {
+        return Err("store iterates a uid twice".into());
+    }
+    Ok(c)
+}
+
+fn canon_json(c: &Canon) -> J {
+    J::Object(
+        c.iter()
+            .map(|(u, (p, i))| (u.id.clone(), json!({"parents": p.iter().map(show_uid).collect::<Vec<_>>(), "indirect": i.iter().map(show_uid).collect::<Vec<_>>()})))
+            .collect(),
+    )
+}
+
+type Bad = Vec<(String, String)>;
+
+/// record a mismatch; at most one entry per fingerprint and call (the text is only built then)
+fn note(bad: &mut Bad, fp: String, what: impl FnOnce() -> String) {
+    if !bad.iter().any(|(f, _)| *f == fp) {
+        let w = what();
+        bad.push((fp, w));
+    }
+}
+
+/// the store read back from the implementation must be the model's: same records, same direct
+/// parents, indirect ancestors = strict reachable set minus direct parents (disjoint)
+fn conformance(site: &str, canon: &Canon, model: &Store, bad: &mut Bad) {
+    let keys: BTreeSet<&Uid> = canon.keys().chain(model.ents.keys()).collect();
+    for u in keys {
+        match (canon.get(u), model.ents.get(u)) {
+            (Some(_), None) => bad.push((format!("{site}:readback:presence"), format!("{} is stored by the implementation but not by the model", u.id))),
+            (None, Some(_)) => bad.push((format!("{site}:readback:presence"), format!("{} is stored by the model but not by the implementation", u.id))),
+            (Some((p, i)), Some(me)) => {
+                if p != &me.parents {
+                    bad.push((format!("{site}:readback:parents"), format!("direct parents of {}: implementation {} model {}", u.id, show_set(p), show_set(&me.parents))));
+                }
+                if !p.is_disjoint(i) {
+                    bad.push((format!("{site}:readback:overlap"), format!("{}: direct parents {} and indirect ancestors {} are not disjoint", u.id, show_set(p), show_set(i))));
+                }
+                let reach = model.ancestors(u);
+                let all: BTreeSet<Uid> = p.union(i).cloned().collect();
+                if all != reach {
+                    let stale: BTreeSet<Uid> = all.difference(&reach).cloned().collect();
+                    let missing: BTreeSet<Uid> = reach.difference(&all).cloned().collect();
+                    let k = if !stale.is_empty() { "stale-ancestor" } else { "missing-ancestor" };
+                    bad.push((
+                        format!("{site}:readback:{k}"),
+                        format!("ancestors of {}: implementation {} but reachable over direct-parent links {} (unjustified {}, missing {})", u.id, show_set(&all), show_set(&reach), show_set(&stale), show_set(&missing)),
+                    ));
+                }
+            }
+            (None, None) => {}
+        }
+    }
+}
+
+/// queries for ALL ordered pairs over universe + ghost: `ancestors`, `is_ancestor_of`, and (when
+/// `with_auth`) `principal in Y` through the Authorizer. Returns the number of API calls compared.
+fn check_queries(w: &World, real: &cedar_policy::Entities, model: &Store, with_auth: bool, bad: &mut Bad) -> u64 {
+    let mut calls = 0u64;
+    for (xi, x) in w.q_uids.iter().enumerate() {
+        let strict = model.ancestors(x);
+        let reach = model.reach(x);
+        calls += 1;
+        match real.ancestors(&w.q_cuids[xi]) {
+            None => {
+                if model.ents.contains_key(x) {
+                    note(bad, "ancestors:none-for-stored".into(), || format!("ancestors({}) is None although {} is stored", x.id, x.id));
+                }
+            }
+            Some(it) => {
+                let mut got: Vec<Uid> = it.map(|u| abs_uid(u.as_ref())).collect();
+                got.sort();
+                let want: Vec<Uid> = strict.iter().cloned().collect();
+                if !model.ents.contains_key(x) {
+                    note(bad, "ancestors:some-for-absent".into(), || format!("ancestors({}) is Some although {} is not stored", x.id, x.id));
+                } else if got != want {
+                    let gs: BTreeSet<Uid> = got.iter().cloned().collect();
+                    let k = if gs.len() != got.len() {
+                        "duplicate"
+                    } else if gs.difference(&strict).next().is_some() {
+                        "spurious"
+                    } else {
+                        "missing"
+                    };
+                    note(bad, format!("ancestors:{k}"), || format!("ancestors({}) = [{}], reachable set {}", x.id, got.iter().map(show_uid).collect::<Vec<_>>().join(","), show_set(&strict)));
+                }
+            }
+        }
+        for (yi, y) in w.q_uids.iter().enumerate() {
+            let want = reach.contains(y); // y == x or y reachable from x
+            calls += 1;
+            let got = real.is_ancestor_of(&w.q_cuids[yi], &w.q_cuids[xi]);
+            if got != want {
+                let stored = if model.ents.contains_key(x) { "stored" } else { "not stored" };
+                let k = if xi == yi {
+                    "reflexive"
+                } else if got {
+                    "spurious"
+                } else {
+                    "missing"
+                };
+                note(bad, format!("is_ancestor_of:{k}"), || format!("is_ancestor_of(a={}, b={}) = {got}, but `{} in {}` must be {want} ({} is {stored})", y.id, x.id, x.id, y.id, x.id));
+            }
+            if with_auth {
+                calls += 1;
+                let resp = w.auth.is_authorized(&w.reqs[xi], &w.psets[yi], real);
+                let allow = resp.decision() == cedar_policy::Decision::Allow;
+                let nerr = resp.diagnostics().errors().count();
+                if nerr != 0 {
+                    note(bad, "in:error".into(), || format!("`permit(principal in {})` with principal {} raised an evaluation error", y.id, x.id));
+                } else if allow != want {
+                    let k = if xi == yi {
+                        "reflexive"
+                    } else if allow {
+                        "spurious"
+                    } else {
+                        "missing"
+                    };
+                    note(bad, format!("in:{k}"), || format!("`{} in {}` through the Authorizer is {allow}, reachability says {want}", x.id, y.id));
+                }
+            }
+        }
+    }
+    calls
+}
+
+/// "other route": the history-built store must equal `from_entities` of the model's entity list,
+/// in both insertion orders (deep_eq both ways and identical canonical form)
+fn check_other_route(w: &World, real: &cedar_policy::Entities, canon: &Canon, model: &Store, bad: &mut Bad) -> u64 {
+    let specs = model_specs(model);
+    let mut calls = 0;
+    for rev in [false, true] {
+        let mut list: Vec<cedar_policy::Entity> = specs.iter().map(|s| w.entity(s)).collect();
+        if rev {
+            list.reverse();
+        }
+        calls += 1;
+        match cedar_policy::Entities::from_entities(list, None) {
+            Err(e) => bad.push(("other-route:from_entities-err".into(), format!("from_entities of the (acyclic) model store {} failed: {e}", model_json(model)))),
+            Ok(b) => {
+                if !real.deep_eq(&b) || !b.deep_eq(real) {
+                    bad.push(("other-route:deep_eq".into(), format!("history-built store is not deep_eq to from_entities of {}", model_json(model))));
+                }
+                match readback(&b) {
+                    Ok(cb) if &cb == canon => {}
+                    Ok(cb) => bad.push(("other-route:canon".into(), format!("history-built store reads back {} but from_entities of the same records reads back {}", canon_json(canon), canon_json(&cb)))),
+                    Err(m) => bad.push(("other-route:canon".into(), m)),
+                }
+            }
+        }
+    }
+    calls
+}
+
+/// checks made once per distinct state (all are functions of the store contents only)
+fn state_checks(w: &World, real: &cedar_policy::Entities, canon: &Canon, model: &Store, bad: &mut Bad) -> u64 {
+    let mut calls = check_queries(w, real, model, true, bad);
+    calls += check_other_route(w, real, canon, model, bad);
+    calls
+}
+
+pub struct StepOut {
+    bad: Bad,
+    class: String,
+    nontrivial: bool,
+    /// Some(..) iff the implementation accepted the op
+    next: Option<(Store, Canon, cedar_policy::Entities, bool)>,
+    query_calls: u64,
+}
+
+/// one transition: model and implementation stepped together, result compared
+fn step(w: &World, model: &Store, real: &cedar_policy::Entities, op: &Op) -> StepOut {
+    let site = op.site();
+    let pred = model_step(model, op);
+    let cyclic = pred.next.has_cycle();
+    let res = impl_step(real.clone(), op, w);
+    let mut bad = Bad::new();
+    let kind = op.kind();
+    match res {
+        Err(e) => {
+            let class;
+            if pred.unpredicted {
+                class = format!("{kind}:re-add:err-{}", err_class(&e));
+            } else if cyclic {
+                class = format!("{kind}:cycle:err-{}", err_class(&e));
+            } else {
+                class = format!("{kind}:UNEXPECTED-err-{}", err_class(&e));
+                bad.push((format!("{site}:unexpected-err"), format!("{} on store {} was rejected ({e}) although the resulting parent graph {} is acyclic", op.to_json(), model_json(model), model_json(&pred.next))));
+            }
+            StepOut { bad, class, nontrivial: true, next: None, query_calls: 0 }
+        }
+        Ok(new) => {
+            let mut diverged = false;
+            if cyclic {
+                diverged = true;
+                bad.push((format!("{site}:cycle-accepted"), format!("{} on store {} was accepted although the resulting parent graph {} has a cycle", op.to_json(), model_json(model), model_json(&pred.next))));
+            }
+            let canon = match readback(&new) {
+                Ok(c) => c,
+                Err(m) => {
+                    bad.push((format!("{site}:readback:malformed"), m));
+                    return StepOut { bad, class: format!("{kind}:malformed"), nontrivial: true, next: None, query_calls: 0 };
+                }
+            };
+            let before = bad.len();
+            conformance(&site, &canon, &pred.next, &mut bad);
+            if bad.len() > before {
+                diverged = true;
+            }
+            let mut query_calls = 0;
+            if !diverged {
+                query_calls = check_queries(w, &new, &pred.next, false, &mut bad);
+            }
+            let changed = pred.next != *model;
+            let class = format!("{kind}:{}ok-{}", if pred.unpredicted { "re-add:" } else { "" }, if changed { "changed" } else { "noop" });
+            StepOut { bad, class, nontrivial: changed, next: Some((pred.next, canon, new, diverged)), query_calls }
+        }
+    }
+}
+
+/// Replay of a whole history from the empty store, with the per-transition and the per-state
+/// checks after every step. Used by `--replay` and by the shrinker.
+fn run_history(w: &World, ops: &[Op], verbose: bool) -> Bad {
+    let mut all = Bad::new();
+    let r = catch_unwind(AssertUnwindSafe(|| {
+        let mut bad = Bad::new();
+        let mut model = Store::default();
+        let mut real = cedar_policy::Entities::empty();
+        let mut canon = Canon::new();
+        state_checks(w, &real, &canon, &model, &mut bad);
+        for op in ops {
+            let out = step(w, &model, &real, op);
+            if verbose {
+                println!("  {} -> {}", op.to_json(), out.class);
+            }
+            bad.extend(out.bad);
+            if let Some((m, c, r, diverged)) = out.next {
+                model = m;
+                canon = c;
+                real = r;
+                if verbose {
+                    println!("     implementation: {}", canon_json(&canon));
+                    println!("     model:          {}", model_json(&model));
+                }
+                if diverged {
+                    break;
+                }
+                state_checks(w, &real, &canon, &model, &mut bad);
+            }
+        }
+        bad
+    }));
+    match r {
+        Ok(b) => all.extend(b),
+        Err(p) => all.push(("panic:C04 history".into(), format!("panic: {}", panic_msg(&p)))),
+    }
+    all
+}
+
+fn fails_with(w: &World, ops: &[Op], fp: &str) -> bool {
+    run_history(w, ops, false).iter().any(|(f, _)| f == fp || (fp.starts_with("panic:") && f.starts_with("panic:")))
+}
+
+/// greedy minimisation: drop ops, split batches, drop parent edges, while the same fingerprint
+/// is still reported
+fn shrink(w: &World, mut ops: Vec<Op>, fp: &str) -> Vec<Op> {
+    if !fails_with(w, &ops, fp) {
+        return ops;
+    }
+    loop {
+        let mut cands: Vec<Vec<Op>> = Vec::new();
+        for i in 0..ops.len() {
+            let mut c = ops.clone();
+            c.remove(i);
+            cands.push(c);
+        }
+        for i in 0..ops.len() {
+            let n = ops[i].len();
+            if n > 1 {
+                for k in 0..n {
+                    let mut c = ops.clone();
+                    match &mut c[i] {
+                        Op::From(b) | Op::Add(b) | Op::Upsert(b) => {
+                            b.remove(k);
+                        }
+                        Op::Remove(b) => {
+                            b.remove(k);
+                        }
+                    }
+                    cands.push(c);
+                }
+            }
+        }
+        for i in 0..ops.len() {
+            if let Op::From(b) | Op::Add(b) | Op::Upsert(b) = &ops[i] {
+                for k in 0..b.len() {
+                    for bit in 0..4 {
+                        if b[k].parents & (1 << bit) != 0 {
+                            let mut c = ops.clone();
+                            if let Op::From(b) | Op::Add(b) | Op::Upsert(b) = &mut c[i] {
+                                b[k].parents &= !(1 << bit);
+                            }
+                            cands.push(c);
+                        }
+                    }
+                }
+            }
+        }
+        match cands.into_iter().find(|c| fails_with(w, c, fp)) {
+            Some(c) => ops = c,
+            None => return ops,
+        }
+    }
+}
+
+fn history_json(n: usize, ops: &[Op]) -> J {
+    json!({"kind": "history", "n": n, "start": "Entities::empty()", "ops": ops.iter().map(Op::to_json).collect::<Vec<_>>()})
+}
+
+// ---------------------------------------------------------------------------------------------
+// part 1: the stateright model
+// ---------------------------------------------------------------------------------------------
+
+pub struct Shared {
+    ctx: Ctx,
+    seen: RwLock<HashSet<String>>,
+    repeats: AtomicU64,
+    shards: Vec<Mutex<Local>>,
+    query_calls: AtomicU64,
+    states_checked: AtomicU64,
+}
+
+static NEXT_SHARD: AtomicUsize = AtomicUsize::new(0);
+thread_local! {
+    static SHARD: usize = NEXT_SHARD.fetch_add(1, Ordering::Relaxed);
+}
+
+impl Shared {
+    fn new(ctx: Ctx) -> Shared {
+        Shared { ctx, seen: RwLock::new(HashSet::new()), repeats: AtomicU64::new(0), shards: (0..64).map(|_| Mutex::new(Local::default())).collect(), query_calls: AtomicU64::new(0), states_checked: AtomicU64::new(0) }
+    }
+    /// report a mismatch; the replay document is built (and the history minimised) only for the
+    /// first occurrence of a fingerprint, later occurrences are only counted
+    fn report(&self, fp: String, what: String, mk: impl FnOnce() -> J) {
+        if self.seen.read().unwrap().contains(&fp) {
+            self.repeats.fetch_add(1, Ordering::Relaxed);
+            return;
+        }
+        let mut s = self.seen.write().unwrap();
+        if s.insert(fp.clone()) {
+            self.ctx.violation(fp, what, mk());
+        } else {
+            self.repeats.fetch_add(1, Ordering::Relaxed);
+        }
+    }
+    fn local<T>(&self, f: impl FnOnce(&mut Local) -> T) -> T {
+        let i = SHARD.with(|s| *s) % self.shards.len();
+        f(&mut self.shards[i].lock().unwrap())
+    }
+    fn flush(&self) {
+        for s in &self.shards {
+            let l = std::mem::take(&mut *s.lock().unwrap());
+            self.ctx.merge(l);
+        }
+    }
+}
+
+#[derive(Clone)]
+pub struct St {
+    model: Store,
+    canon: Canon,
+    diverged: bool,
+    // payload, a function of the history that first reached this canonical state; not hashed
+    real: cedar_policy::Entities,
+    hist: Vec<u32>,
+}
+
+impl Hash for St {
+    fn hash<H: Hasher>(&self, h: &mut H) {
+        self.model.hash(h);
+        self.canon.hash(h);
+        self.diverged.hash(h);
+    }
+}
+
+impl PartialEq for St {
+    fn eq(&self, o: &Self) -> bool {
+        self.model == o.model && self.canon == o.canon && self.diverged == o.diverged
+    }
+}
+
+pub struct Mc {
+    w: Arc<World>,
+    ops: Arc<Vec<Op>>,
+    /// visiting order of the ops (rotated by VERIF_SEED)
+    order: Vec<u32>,
+    sh: Arc<Shared>,
+}
+
+impl Mc {
+    fn hist_ops(&self, hist: &[u32]) -> Vec<Op> {
+        hist.iter().map(|i| self.ops[*i as usize].clone()).collect()
+    }
+    fn report_hist(&self, fp: String, what: String, hist: &[u32]) {
+        let fp2 = fp.clone();
+        self.sh.report(fp, what, || {
+            let ops = self.hist_ops(hist);
+            let small = shrink(&self.w, ops.clone(), &fp2);
+            let mut j = history_json(self.w.n, &small);
+            j["found_as"] = json!(ops.iter().map(Op::to_json).collect::<Vec<_>>());
+            j["after_history"] = json!(run_history(&self.w, &small, false).into_iter().filter(|(f, _)| *f == fp2).map(|(_, w)| w).collect::<Vec<_>>());
+            j
+        });
+    }
+}
+
+impl Model for Mc {
+    type State = St;
+    type Action = u32;
+
+    fn init_states(&self) -> Vec<St> {
+        vec![St { model: Store::default(), canon: Canon::new(), diverged: false, real: cedar_policy::Entities::empty(), hist: vec![] }]
+    }
+
+    fn actions(&self, s: &St, out: &mut Vec<u32>) {
+        if s.diverged {
+            return;
+        }
+        // `from_entities` takes no store: the call is the same in every state, so it is enabled
+        // where a history starts and whenever the store is empty again
+        let empty = s.model.ents.is_empty();
+        for i in &self.order {
+            if matches!(self.ops[*i as usize], Op::From(_)) && !empty {
+                continue;
+            }
+            out.push(*i);
+        }
+    }
+
+    fn next_state(&self, s: &St, a: u32) -> Option<St> {
+        let op = &self.ops[a as usize];
+        let mut hist = s.hist.clone();
+        hist.push(a);
+        let out = self.sh.ctx.guard("C04 transition", || history_json(self.w.n, &self.hist_ops(&hist)), || step(&self.w, &s.model, &s.real, op))?;
+        let key = hash_of(&(&s.model, a));
+        self.sh.local(|l| {
+            l.case(key, &out.class, out.nontrivial);
+            l.transitions += 1;
+        });
+        self.sh.query_calls.fetch_add(out.query_calls, Ordering::Relaxed);
+        for (fp, what) in out.bad {
+            self.report_hist(fp, what, &hist);
+        }
+        let (model, canon, real, diverged) = out.next?;
+        Some(St { model, canon, diverged, real, hist })
+    }
+
+    fn properties(&self) -> Vec<Property<Self>> {
+        vec![Property::always("store read back from the implementation = model; membership = reachability", |m: &Mc, s: &St| {
+            if s.diverged {
+                return false;
+            }
+            let mut bad = Bad::new();
+            let r = m.sh.ctx.guard("C04 state queries", || history_json(m.w.n, &m.hist_ops(&s.hist)), || state_checks(&m.w, &s.real, &s.canon, &s.model, &mut bad));
+            m.sh.states_checked.fetch_add(1, Ordering::Relaxed);
+            if let Some(c) = r {
+                m.sh.query_calls.fetch_add(c, Ordering::Relaxed);
+            }
+            for (fp, what) in bad {
+                m.report_hist(fp, what, &s.hist);
+            }
+            true
+        })]
+    }
+}
+
+/// number of acyclic stores over n uids (every stored subset, parents anywhere in the universe),
+/// counted by brute force: the BFS must reach exactly these
+fn count_acyclic_stores(n: usize) -> u64 {
+    let mut total = 0u64;
+    for stored in 0..(1u32 << n) {
+        let members: Vec<usize> = (0..n).filter(|i| stored & (1 << i) != 0).collect();
+        let combos = 1u64 << (n * members.len());
+        for c in 0..combos {
+            let mut s = Store::default();
+            for (k, u) in members.iter().enumerate() {
+                let mask = ((c >> (k * n)) & ((1 << n) - 1)) as u8;
+                s.ents.insert(uid(*u), ent_of(mask));
+            }
+            if !s.has_cycle() {
+                total += 1;
+            }
+        }
+    }
+    total
+}
+
+// ---------------------------------------------------------------------------------------------
+// part 2: from_entities on every parent graph, every insertion order
+// ---------------------------------------------------------------------------------------------
+
+fn from_sweep(sh: &Shared, w: &World) {
+    let n = w.n;
+    let mut graphs: Vec<Vec<Spec>> = Vec::new();
+    for stored in 0..(1u32 << n) {
+        let members: Vec<usize> = (0..n).filter(|i| stored & (1 << i) != 0).collect();
+        let combos = 1u64 << (n * members.len());
+        for c in 0..combos {
+            graphs.push(members.iter().enumerate().map(|(k, u)| Spec { u: *u as u8, parents: ((c >> (k * n)) & ((1 << n) - 1)) as u8 }).collect());
+        }
+    }
+    let total = graphs.len();
+    sh.ctx.set_info("from_entities_sweep_graphs", json!(total));
+    graphs.par_chunks(64).for_each(|chunk| {
+        let mut l = Local::default();
+        let mut qc = 0u64;
+        for g in chunk {
+            for (pi, perm) in permutations(g.len()).into_iter().enumerate() {
+                let batch: Vec<Spec> = perm.iter().map(|i| g[*i]).collect();
+                let op = Op::From(batch);
+                let empty = cedar_policy::Entities::empty();
+                let Some(out) = sh.ctx.guard("C04 from_entities sweep", || history_json(n, &[op.clone()]), || step(w, &Store::default(), &empty, &op)) else { continue };
+                l.case(hash_of(&op), &format!("sweep:{}", out.class), !g.is_empty());
+                l.transitions += 1;
+                qc += out.query_calls;
+                let mut bad = out.bad;
+                // the Authorizer route once per graph (first insertion order)
+                if let (0, Some((m, c, r, false))) = (pi, &out.next) {
+                    let got = sh.ctx.guard("C04 from_entities sweep queries", || history_json(n, &[op.clone()]), || {
+                        let mut b = Bad::new();
+                        let k = check_queries(w, r, m, true, &mut b);
+                        let _ = c;
+                        (b, k)
+                    });
+                    if let Some((b, k)) = got {
+                        qc += k;
+                        bad.extend(b);
+                    }
+                }
+                for (fp, what) in bad {
+                    let fp2 = fp.clone();
+                    let ops = vec![op.clone()];
+                    sh.report(fp, what, || {
+                        let small = shrink(w, ops.clone(), &fp2);
+                        let mut j = history_json(n, &small);
+                        j["found_as"] = json!(ops.iter().map(Op::to_json).collect::<Vec<_>>());
+                        j
+                    });
+                }
+            }
+        }
+        sh.query_calls.fetch_add(qc, Ordering::Relaxed);
+        sh.ctx.merge(l);
+    });
+}
+
+// ---------------------------------------------------------------------------------------------
+// part 3: core-level TCComputation::EnforceAlreadyComputed on hand-built stores (N = 3)
+// ---------------------------------------------------------------------------------------------
+
+/// edges i -> j as (i, j); self edges only in the thorough tier
+fn enforce_edges(with_self: bool) -> Vec<(usize, usize)> {
+    let mut v = Vec::new();
+    for i in 0..3 {
+        for j in 0..3 {
+            if i != j {
+                v.push((i, j));
+            }
+        }
+    }
+    if with_self {
+        for i in 0..3 {
+            v.push((i, i));
+        }
+    }
+    v
+}
+
+fn enforce_case(edges: &[(usize, usize)], pmask: u32, imask: u32) -> Bad {
+    use cedar_policy_core::entities::{Entities as CoreEntities, NoEntitiesSchema, TCComputation};
+    let mut bad = Bad::new();
+    let cu: Vec<ast::EntityUID> = (0..3).map(|i| core_uid(&uid(i))).collect();
+    let mut ents = Vec::new();
+    for i in 0..3 {
+        let pick = |mask: u32| -> HashSet<ast::EntityUID> { edges.iter().enumerate().filter(|(k, (a, _))| *a == i && mask & (1 << k) != 0).map(|(_, (_, b))| cu[*b].clone()).collect() };
+        let none = || std::iter::empty::<(smol_str::SmolStr, ast::PartialValue)>();
+        ents.push(ast::Entity::new_with_attr_partial_value(cu[i].clone(), none(), pick(imask), pick(pmask), none()));
+    }
+    let res = CoreEntities::from_entities(ents, None::<&NoEntitiesSchema>, TCComputation::EnforceAlreadyComputed, cedar_policy_core::extensions::Extensions::all_available());
+    // the hand-built edge relation: direct or claimed-indirect
+    let mut e = [[false; 3]; 3];
+    for (k, (a, b)) in edges.iter().enumerate() {
+        if (pmask | imask) & (1 << k) != 0 {
+            e[*a][*b] = true;
+        }
+    }
+    let mut closed = true;
+    for u in 0..3 {
+        for v in 0..3 {
+            for x in 0..3 {
+                if e[u][v] && e[v][x] && !e[u][x] {
+                    closed = false;
+                }
+            }
+        }
+    }
+    // acyclic: no node reaches itself (Warshall on a copy)
+    let mut r = e;
+    for k in 0..3 {
+        for u in 0..3 {
+            for v in 0..3 {
+                if r[u][k] && r[k][v] {
+                    r[u][v] = true;
+                }
+            }
+        }
+    }
+    let acyclic = (0..3).all(|u| !r[u][u]);
+    let desc = || {
+        let names = |mask: u32| edges.iter().enumerate().filter(|(k, _)| mask & (1 << k) != 0).map(|(_, (a, b))| format!("{}->{}", NAMES[*a], NAMES[*b])).collect::<Vec<_>>().join(" ");
+        format!("parents [{}] indirect [{}]", names(pmask), names(imask))
+    };
+    match res {
+        Ok(store) => {
+            if !closed {
+                bad.push(("enforce:accepted-not-closed".into(), format!("EnforceAlreadyComputed accepted a store that is not transitively closed: {}", desc())));
+            }
+            if !acyclic {
+                bad.push(("enforce:accepted-cyclic".into(), format!("EnforceAlreadyComputed accepted a cyclic store: {}", desc())));
+            }
+            // what was accepted answers membership by the given edges
+            for u in 0..3 {
+                if let cedar_policy_core::entities::Dereference::Data(ent) = store.entity(&cu[u]) {
+                    for v in 0..3 {
+                        if ent.is_descendant_of(&cu[v]) != e[u][v] {
+                            bad.push(("enforce:edges-changed".into(), format!("accepted store answers {} descendant of {} = {}, given {}", NAMES[u], NAMES[v], !e[u][v], desc())));
+                        }
+                    }
+                } else {
+                    bad.push(("enforce:entity-lost".into(), format!("accepted store lacks {}: {}", NAMES[u], desc())));
+                }
+            }
+        }
+        Err(err) => {
+            if closed && acyclic {
+                bad.push(("enforce:rejected-valid".into(), format!("EnforceAlreadyComputed rejected a transitively closed acyclic store ({err}): {}", desc())));
+            }
+        }
+    }
+    bad
+}
+
+fn enforce_class(edges: &[(usize, usize)], pmask: u32, imask: u32) -> (&'static str, bool) {
+    // class from the oracle side only (recomputed cheaply)
+    let mut e = [[false; 3]; 3];
+    for (k, (a, b)) in edges.iter().enumerate() {
+        if (pmask | imask) & (1 << k) != 0 {
+            e[*a][*b] = true;
+        }
+    }
+    let mut closed = true;
+    for u in 0..3 {
+        for v in 0..3 {
+            for x in 0..3 {
+                if e[u][v] && e[v][x] && !e[u][x] {
+                    closed = false;
+                }
+            }
+        }
+    }
+    let selfloop = (0..3).any(|u| e[u][u]);
+    let class = match (closed, selfloop) {
+        (true, false) => "enforce:closed-acyclic",
+        (true, true) => "enforce:closed-cyclic",
+        (false, _) => "enforce:not-closed",
+    };
+    (class, (pmask | imask) != 0)
+}
+
+fn enforce_sweep(sh: &Shared, tier: Tier) {
+    let edges = enforce_edges(tier == Tier::Thorough);
+    let k = edges.len();
+    sh.ctx.set_info("enforce_edge_bits", json!(k));
+    (0..(1u32 << k)).into_par_iter().for_each(|pmask| {
+        let mut l = Local::default();
+        for imask in 0..(1u32 << k) {
+            let case = || json!({"kind": "enforce", "with_self_edges": k == 9, "pmask": pmask, "imask": imask});
+            let (class, nontrivial) = enforce_class(&edges, pmask, imask);
+            l.case(hash_of(&("enforce", pmask, imask)), class, nontrivial);
+            l.transitions += 1;
+            if let Some(bad) = sh.ctx.guard("C04 enforce", case, || enforce_case(&edges, pmask, imask)) {
+                for (fp, what) in bad {
+                    sh.report(fp, what, case);
+                }
+            }
+        }
+        sh.ctx.merge(l);
+    });
+}
+
+// ---------------------------------------------------------------------------------------------
+// replay
+// ---------------------------------------------------------------------------------------------
+
+fn replay(path: &str) -> i32 {
+    let doc: J = match std::fs::read_to_string(path).ok().and_then(|s| serde_json::from_str(&s).ok()) {
+        Some(d) => d,
+        None => {
+            eprintln!("cannot read replay file {path}");
+            return 2;
+        }
+    };
+    if doc["property"].as_str() != Some("C04") {
+        eprintln!("replay file is not a C04 case");
+        return 2;
+    }
+    let fp = doc["fingerprint"].as_str().unwrap_or("").to_string();
+    let case = &doc["case"];
+    quiet_panics();
+    let bad: Bad = match case["kind"].as_str() {
+        Some("history") => {
+            let n = case["n"].as_u64().unwrap_or(3) as usize;
+            let Some(ops) = case["ops"].as_array().and_then(|a| a.iter().map(Op::from_json).collect::<Option<Vec<Op>>>()) else {
+                eprintln!("replay file holds no readable history");
+                return 2;
+            };
+            if !(1..=4).contains(&n) {
+                eprintln!("bad universe size in replay file");
+                return 2;
+            }
+            println!("replaying history over {n} uids (+ query-only {GHOST}), starting from Entities::empty():");
+            let w = World::new(n);
+            run_history(&w, &ops, true)
+        }
+        Some("enforce") => {
+            let edges = enforce_edges(case["with_self_edges"].as_bool().unwrap_or(false));
+            let (Some(p), Some(i)) = (case["pmask"].as_u64(), case["imask"].as_u64()) else {
+                eprintln!("replay file holds no enforce case");
+                return 2;
+            };
+            println!("replaying EnforceAlreadyComputed case pmask={p} imask={i}");
+            match catch_unwind(AssertUnwindSafe(|| enforce_case(&edges, p as u32, i as u32))) {
+                Ok(b) => b,
+                Err(p) => vec![("panic:C04 enforce".into(), panic_msg(&p))],
+            }
+        }
+        _ => {
+            eprintln!("replay file holds no C04 case (kind={})", case["kind"]);
+            return 2;
+        }
+    };
+    let mut hit = false;
+    for (f, what) in &bad {
+        let same = *f == fp || (fp.starts_with("panic:") && f.starts_with("panic:"));
+        println!("  [{f}]{} {what}", if same { " <== recorded fingerprint" } else { "" });
+        hit |= same;
+    }
+    if hit {
+        println!("VIOLATION property=C04 replay={path}");
+        1
+    } else {
+        println!("recorded mismatch [{fp}] not reproduced");
+        0
+    }
+}
+
+// ---------------------------------------------------------------------------------------------
+// entry point
+// ---------------------------------------------------------------------------------------------
+
+pub fn run(tier: Tier, replay_file: Option<&str>) -> i32 {
+    if let Some(p) = replay_file {
+        return replay(p);
+    }
+    quiet_panics();
+    let n = tier.pick(3, 4);
+    let ctx = Ctx::new("C04", tier);
+    let seed = ctx.seed;
+    let sh = Arc::new(Shared::new(ctx));
+    let w = Arc::new(World::new(n));
+    let ops = Arc::new(all_ops(n));
+    let mut order: Vec<u32> = (0..ops.len() as u32).collect();
+    let rot = (seed % ops.len() as u64) as usize;
+    order.rotate_left(rot);
+
+    sh.ctx.set_info("ops_in_alphabet", json!(ops.len()));
+    sh.ctx.sample(ops[0].to_json());
+    sh.ctx.sample(ops[ops.len() / 3 + 7].to_json());
+    sh.ctx.sample(ops[ops.len() / 2 + 11].to_json());
+    sh.ctx.sample(ops[ops.len() - 1].to_json());
+
+    // part 1: BFS
+    let threads = std::thread::available_parallelism().map(|x| x.get()).unwrap_or(4).min(16);
+    let model = Mc { w: w.clone(), ops: ops.clone(), order, sh: sh.clone() };
+    let checker = model.checker().threads(threads).spawn_bfs().join();
+    let unique = checker.unique_state_count() as u64;
+    let generated = checker.state_count() as u64;
+    let depth = checker.max_depth() as u64;
+    let done = checker.is_done();
+    let stopped_early = !checker.discoveries().is_empty();
+    drop(checker);
+    sh.flush();
+    let bfs_transitions = sh.ctx.transitions.load(Ordering::Relaxed);
+    sh.ctx.states.store(unique, Ordering::Relaxed);
+    sh.ctx.max_depth.store(depth, Ordering::Relaxed);
+    let expected_states = count_acyclic_stores(n);
+    sh.ctx.set_info(
+        "bfs",
+        json!({"unique_states": unique, "states_generated_incl_repeats": generated, "transitions": bfs_transitions, "max_depth": depth, "threads": threads,
+               "expected_states_all_acyclic_stores": expected_states, "states_with_full_query_check": sh.states_checked.load(Ordering::Relaxed), "stopped_at_divergence": stopped_early}),
+    );
+    if !done {
+        sh.ctx.cap_hit("BFS did not finish");
+    }
+
+    // part 2 and 3
+    if !stopped_early {
+        from_sweep(&sh, &w);
+        enforce_sweep(&sh, tier);
+    }
+    sh.ctx.set_info("query_calls_compared", json!(sh.query_calls.load(Ordering::Relaxed)));
+    sh.ctx.set_info("repeat_occurrences_of_reported_fingerprints", json!(sh.repeats.load(Ordering::Relaxed)));
+
+    let clean = sh.ctx.violation_seen() == 0;
+    let Ok(shared) = Arc::try_unwrap(sh) else {
+        eprintln!("MACHINERY ERROR: exploration context still shared after the checker finished");
+        return 2;
+    };
+    let Shared { ctx, .. } = shared;
+    if clean && unique != expected_states {
+        eprintln!("MACHINERY ERROR: BFS reached {unique} states, but there are {expected_states} acyclic stores over {n} uids");
+        return 2;
+    }
+    let code = ctx.finish(
+        "case = (state, op) transition of the BFS, or one from_entities call of the all-graphs sweep, or one EnforceAlreadyComputed store; class = API entry point x oracle outcome (ok-changed / ok-noop / cycle -> err / re-add of a present uid (unpredicted) -> ok|err); non-trivial = the op changes the model store or is rejected (sweeps: the graph / edge set is not empty)",
+        json!({
+            "tier": tier.name(),
+            "uids": n,
+            "query_only_uid": GHOST,
+            "entity_alphabet": "uid x every subset of the universe (self included) as direct parents",
+            "ops": "from_entities (enabled when the store is empty), add_entities, upsert_entities with every batch of size 1 and every ORDERED batch of size 2; remove_entities with every uid and every ordered pair of uids",
+            "ops_per_state": ops.len(),
+            "depth": "unbounded (finite state space, BFS to fixpoint)",
+            "from_entities_sweep": "every stored subset x every parent assignment (self-parents included: cycles of every length <= n) x every insertion order",
+            "enforce_sweep": if tier == Tier::Thorough { "3 entities, all 2^9 parent-edge sets x 2^9 claimed indirect-edge sets (self edges included)" } else { "3 entities, all 2^6 parent-edge sets x 2^6 claimed indirect-edge sets" },
+            "queries": "after every accepted op: ancestors(x), is_ancestor_of(y,x) for all ordered pairs over universe + Z; in every distinct state additionally `permit(principal in Y, ..)` through Authorizer for all pairs and deep_eq against from_entities of the model records in both orders",
+        }),
+        &[
+            "the canonical form read back (uid -> direct parents, indirect ancestors; no attrs/tags) is the whole observable content of the store, so queries asked once per distinct canonical state cover every history reaching it",
+            "add/from of a uid that is already present is not predicted (Err, or Ok leaving the record unchanged, are both accepted)",
+            "entities with pre-populated indirect_ancestors occur only in the EnforceAlreadyComputed sweep",
+            "hash-map iteration order is not enumerated (insertion orders are)",
+        ],
+        done,
+    );
+    code
+}
